@@ -691,11 +691,12 @@ def _conc_scenarios(rng, n, gc):
                 setup.append("setup pgc %d" % rng.randint(20, 90))
         writers = set()
         th = []
+        same_key_writers = rng.random() < 0.3       # writers of one key are serialised by the store's key lock
         for i in range(rng.randint(2, 4)):
             k = rng.choice(keys)
             kind = rng.choice(("put", "put", "get", "get", "has", "size", "remove", "flush"))
             if kind in ("put", "remove"):
-                cand = [x for x in keys if x not in writers]
+                cand = keys if same_key_writers else [x for x in keys if x not in writers]
                 if not cand:
                     kind = "get"
                 else:
@@ -792,7 +793,7 @@ def _lin_check(ctx, gc):
                   "correspondence_mismatches": len(mism), "coq_replay_s": round(coq_s, 1),
                   "samples": [{"scenario": scen[-1].strip().split("\n")}],
                   "schedule_rule": "2-4 calls (Put/Get/Has/GetSize/Remove/Flush" + (" + 1-2 GC cycles (primary / index) over flushed garbage in small files" if gc else "") +
-                                   ") on 2-4 keys of one bucket sharing leading bytes, no two concurrent writers of one key, stepped through the yield points in a random order of 6-45 steps, "
+                                   ") on 2-4 keys of one bucket sharing leading bytes (in 30% of the scenarios several writers may address one key), stepped through the yield points in a random order of 6-45 steps, "
                                    "then run freely; oracle: no call fails or hangs, some linearization consistent with the real-time order explains every result AND the final contents; "
                                    "non-trivial = >= 3 switches between threads in the observed event sequence"}
 
@@ -1177,6 +1178,90 @@ CHECKS["C07"] = Spec(
          "whose key carries the bucket bits and the stored prefix, in a file >= FirstFile; no such location is on the freelist; byte images and tables are also compared with the model; "
          "non-trivial = >= 2 flushes, >= 1 GC cycle, >= 4 puts",
 )
+def _c13_scenarios(rng, n):
+    scen = []
+    vals = ["61", "6262", "636363", "6464646464646464"]
+    for _ in range(n):
+        if rng.random() < 0.5:
+            # a writer of K overlaps the relocation of K's record out of a low-use primary file
+            K = "1206070707090909"
+            others = ["12060707070%d0%d0%d" % (i, i, i) for i in range(1, 7)]
+            nsup = rng.choice((3, 4, 6))
+            pmax = {3: 100, 4: 130, 6: 190}[nsup]
+            setup = ["setup put %s %s" % (o, "61" * 18) for o in others[:nsup]] + ["setup put %s %s" % (K, "31" * 18), "setup flush"] + \
+                    ["setup put %s %s" % (o, "41" * 18) for o in others[:nsup]] + ["setup flush"]
+            th = [("T0", rng.choice(("remove %s" % K, "put %s %s" % (K, "32" * 18), "put %s 3233" % K))), ("G1", "pgc %d" % rng.choice((25, 50, 60)))]
+            if rng.random() < 0.4:
+                th.append(("T1", rng.choice(("put %s 3435" % K, "remove %s" % K, "get %s" % K, "flush"))))
+            names = [t[0] for t in th]
+            if rng.random() < 0.5:
+                sched = ["T0"] * rng.choice((2, 3)) + ["G1"] * 20 + [rng.choice(names) for _ in range(10)]
+            else:
+                sched = [rng.choice(names) for _ in range(rng.randint(6, 40))]
+        else:
+            # several writers of one key
+            pool = rng.sample(CKEYS, 2)
+            K = pool[0]
+            pmax = rng.choice((30, 60, 1048576))
+            setup = ["setup put %s %s" % (k, rng.choice(vals)) for k in pool if rng.random() < 0.7]
+            if setup and rng.random() < 0.6:
+                setup.append("setup flush")
+            th = []
+            for i in range(rng.randint(2, 3)):
+                th.append(("T%d" % i, rng.choice(("put %s %s" % (K, rng.choice(vals)), "put %s %s" % (K, rng.choice(vals)), "remove %s" % K))))
+            if rng.random() < 0.4:
+                th.append(("F1", "flush"))
+            if rng.random() < 0.3:
+                th.append(("G1", "pgc %d" % rng.randint(20, 90)))
+            names = [t[0] for t in th]
+            sched = [rng.choice(names) for _ in range(rng.randint(6, 40))]
+        scen.append("cfg bits=8 imax=1048576 pmax=%d timeout_ms=3000\n" % pmax + "\n".join(setup) + ("\n" if setup else "") +
+                    "".join("thread %s %s\n" % t for t in th) + "schedule " + " ".join(sched) + "\n")
+    return scen
+
+
+def _c13_conc(ctx):
+    """C13 under concurrency: writers that overlap each other or the relocation of their record; after everything has ended, been flushed,
+    closed and reopened, the census of the real files is judged: no location on the freelist twice, none that is current, and every live
+    primary record is current or on the freelist (nothing leaked)."""
+    from . import oracles
+    prop, tier, wd, rng = ctx["prop"], ctx["tier"], ctx["wd"], ctx["rng"]
+    C.go_build(["concdrive"])
+    scen, names = [], []
+    cdir = os.path.join(C.VERIF, "corpus", prop)
+    if os.path.isdir(cdir):
+        for fn in sorted(os.listdir(cdir)):
+            if fn.endswith(".scn"):
+                scen.append(open(os.path.join(cdir, fn)).read()); names.append(fn)
+    n = 80 if tier == "quick" else 3000
+    if ctx.get("replay") and ctx["replay"].endswith(".scn"):
+        scen, names, n = [open(ctx["replay"]).read()], [os.path.basename(ctx["replay"])], 0
+    elif ctx.get("replay"):
+        return [], {}
+    scen += _c13_scenarios(rng, n)
+    res = run_conc(scen, wd, "c13conc")
+    viol, judged, superseding = [], 0, 0
+    for txt, r, raw in res:
+        if r is None:
+            raise C.CheckError("concdrive failed: " + raw)
+        if r["stuck"] or not r.get("census"):
+            continue            # a call that does not return is C05's / C06's matter
+        judged += 1
+        cz = r["census"]
+        if len(cz["free_file"]) + len(cz["free_gc"]) + sum(len(v) for v in cz["dead"].values()) > 0:
+            superseding += 1
+        bad = oracles.dir_invariants(cz, quiescent=True)
+        if bad and bad.startswith("C13") and len(viol) < 3:
+            rp = C.save_replay(prop, "sched-%s.scn" % hashlib.sha1(txt.encode()).hexdigest()[:10],
+                               "# %s fails on the implementation: %s\n# replay: cd /verif && ./check %s --replay <this file>\n%s" % (prop, bad, prop, txt))
+            viol.append(("schedule: " + bad, rp, True))
+    return viol, {"evaluations": len(scen), "distinct_nontrivial": superseding, "concurrent_scenarios_judged_by_the_freelist_census": judged,
+                  "samples": [{"scenario": scen[-1].strip().split("\n")}],
+                  "concurrency_rule": "a writer of K overlapping the relocation of K's record by a primary GC cycle, or 2-3 writers of one key (Put/Remove), stepped through the "
+                                      "yield points in a random order; after the end, two flushes, Close and reopen the real files are read: freelist entries distinct, none current, "
+                                      "every live primary record current or on the freelist; non-trivial = at least one location was superseded"}
+
+
 CHECKS["C13"] = Spec(
     prop_file="C13.v",
     weights=dict(put=40, get=4, remove=16, flush=12, atflush=4, pgc=9, pgcb=0, igc=2, reopen=4),
@@ -1185,6 +1270,8 @@ CHECKS["C13"] = Spec(
     keep=("res", "img"),
     aspects=("map", "dir"),
     witnesses=["C13-freelist-exact", "F12b-writer-inside-commit-then-crash"],
+    tools=["sthdrive", "witness", "concdrive"],
+    extra=_c13_conc,
     nontrivial=lambda t, r: _count_ops(t, ("flush",)) >= 1 and any(((x.get("extra") or {}).get("blk_before") or "") != "" and (x.get("extra") or {}).get("blk_after") != (x.get("extra") or {}).get("blk_before") for x in r),
     rule=_KEYS_RULE + "overwrites, identical re-puts, rejected immutable puts, removals of present and absent keys, flushes, primary GC (hand-over of the freelist file) "
          "and reopen; the freelist file image is compared byte for byte with the model after every flush/GC, and on the real files: no duplicate entry, "
